@@ -89,7 +89,7 @@ class Monitor(object):
         if isinstance(a, bool) or isinstance(b, bool):
             return a is b
         if isinstance(a, (int, float)) and isinstance(b, (int, float)):
-            return a == b or abs(a - b) <= 1e-12 * max(1.0, abs(a), abs(b))
+            return a == b          # both sides are IEEE doubles carried as shortest round-trip text: the same value means equal
         return type(a) is type(b) and a == b
 
     def suffix(self, fn, args, tag):
